@@ -67,6 +67,21 @@ def _grammars(ctx, pkg):
     for name, lang in (("fgrammar", "fortran"), ("cgrammar", "c")):
         node = by_lang.get(lang, ci.attrs.get(name))
         out[name] = _const_str(node, ci.attrs)
+    if not all(out.values()):
+        # the text assembled from module-level pieces / by a layout function: constant folding of the module's and the class's
+        # assignments in order (sa.consteval: values written in the source combined by str / tuple operations, nothing is run)
+        from .. import consteval
+        funcs = {}
+        env = consteval.run(pkg.modules[ci.file].body, funcs=funcs)
+        env = consteval.run(ci.node.body, env, funcs=funcs)
+        table = env.get("grammar")
+        for name, lang in (("fgrammar", "fortran"), ("cgrammar", "c")):
+            if not out[name]:
+                v = None
+                if isinstance(table, dict):
+                    v = next((x for k, x in table.items() if isinstance(k, str) and k.lower() == lang), None)
+                v = v if isinstance(v, str) else env.get(name)
+                out[name] = v if isinstance(v, str) else None
     return ci, out
 
 
@@ -94,6 +109,7 @@ def _unit_closure(rules, start):
 
 def check(ctx):
     pkg = package(ctx.tree)
+    _MODULE["mod"] = pkg.modules.get(CF)
     ci, gr = _grammars(ctx, pkg)
     _r1(ctx, gr)
     _r2(ctx, pkg, ci, gr)
@@ -106,6 +122,7 @@ def check(ctx):
     from .c06 import _r1 as assignment_rule
     ctx.absorb(assignment_rule, "R7")
     _r7_own_expression(ctx, pkg)
+    _r8(ctx, pkg)
 
 
 TL = "naunet/templateloader.py"
@@ -216,6 +233,116 @@ def _r7_own_expression(ctx, pkg):
         ctx.ok("R7", "_assign_rates:rate text pasted as returned", (TL, fn.lineno), "no rewriting operation is applied to the text rateexpr() returns")
 
 
+_TEXT_REWRITERS = {"sub", "subn", "replace", "translate", "lower", "upper", "casefold", "swapcase", "title", "capitalize", "format", "removeprefix", "removesuffix", "expandtabs",
+                   "zfill", "center", "ljust", "rjust"}
+
+
+def _text_from(v, src):
+    """How the string value `v` (sa.valueflow IR) derives from the string `src`:  ("same", []) -- it is `src`, at most with surrounding
+    whitespace stripped;  ("rewritten", [operation, ..]) -- it is `src` put through text-rewriting operations (regex substitution,
+    replace, translate, case change ..), innermost first;  ("unknown", [sub-value]) -- anything else."""
+    from ..valueflow import walk
+    ops = []
+    for _ in range(60):
+        if v == src:
+            return ("rewritten" if ops else "same"), ops[::-1]
+        if v[0] == "meth" and v[2] in ("strip", "lstrip", "rstrip") and not v[3] and not v[4]:
+            v = v[1]
+            continue
+        if v[0] == "meth" and v[2] in _TEXT_REWRITERS and any(x == src for x in walk(v[1])):
+            ops.append(v)
+            v = v[1]
+            continue
+        if v[0] == "meth" and v[2] in ("sub", "subn") and v[3] and any(x == src for x in walk(v[3][-1])):        # re.sub(p, r, text) / compiled.sub(r, text)
+            ops.append(v)
+            v = v[3][-1]
+            continue
+        if v[0] == "call" and v[1] == ("global", "str") and len(v[2]) == 1:
+            v = v[2][0]
+            continue
+        break
+    return "unknown", [v]
+
+
+def _r8(ctx, pkg):
+    """The text the translator is given is the text of the file: between the line handed to KROMEReaction.preprocessing and
+    `self.rate_string` (where R3's reviewed pre-pass starts) nothing rewrites it -- preprocessing returns the line it was given
+    (stripped) or "" for a directive, and _parse_string stores the `rate` field of the comma-split line with the one reviewed
+    spelling change dexp -> exp.  A rewriting of the whole line (number literals re-spelt, case folded ..) changes what the rate
+    expressions denote before the reviewed translation sees them."""
+    from ..valueflow import Flow, simp, show
+    helpers = lambda name: pkg.resolve("KROMEReaction", name)[1] if name.startswith("_") and not name.startswith("__") else None
+    funcs = lambda name: pkg.functions.get((KR, name))
+    # ---- preprocessing
+    _, pre = pkg.resolve("KROMEReaction", "preprocessing")
+    if pre is None:
+        ctx.missing("R8", "KROMEReaction.preprocessing", (KR, 0), "method not found")
+    else:
+        params = [a.arg for a in pre.args.args]
+        if len(params) != 2:
+            ctx.unrec("R8", "preprocessing:returns the line", (KR, pre.lineno), f"expected preprocessing(cls, line), found {params}")
+        else:
+            src = ("param", params[1])
+            rets = [(f.line, simp(f.value)) for f in Flow(pre, KR, resolver=helpers, func_resolver=funcs).facts if f.kind == "return" and f.value is not None]
+            verdicts = []
+            for line, v in rets:
+                arms = [v]
+                while any(a[0] in ("phi", "ifexp") for a in arms):
+                    arms = [b for a in arms for b in ((a[2], a[3]) if a[0] in ("phi", "ifexp") else (a,))]
+                for a in arms:
+                    if a == ("const", ""):
+                        continue
+                    verdicts.append((line,) + _text_from(a, src))
+            n_line = sum(1 for _, k, _ in verdicts if k == "same")
+            for line, kind, ops in verdicts:
+                if kind == "rewritten":
+                    ctx.bad("R8", f"preprocessing:line rewritten:{show(ops[0])[:50]}", (KR, line),
+                            f"preprocessing does not hand back the line it was given but the line put through {show(ops[0])[:90]}: the rate expression (and every other field) is re-spelt for the "
+                            "whole line before the reviewed pre-pass of rateexpr sees it -- a literal such as 1d0 can reach the translator as the C integer 1 (1d0/3d0 -> 1/3 = 0)",
+                            expected="return line.strip()  (\"\" for a directive line)", found=show(ops[-1])[:160])
+                elif kind == "unknown":
+                    ctx.unrec("R8", "preprocessing:returns the line", (KR, line), f"cannot see that preprocessing returns its line unchanged: {show(ops[0])[:100]}")
+            if not any(k != "same" for _, k, _ in verdicts):
+                if n_line:
+                    ctx.ok("R8", "preprocessing:returns the line", (KR, pre.lineno), "a line that is not a directive is handed back as it was read (stripped)")
+                else:
+                    ctx.unrec("R8", "preprocessing:returns the line", (KR, pre.lineno), "no exit of preprocessing returns the line")
+    # ---- _parse_string: rate_string
+    _, ps = pkg.resolve("KROMEReaction", "_parse_string")
+    if ps is None:
+        ctx.missing("R8", "KROMEReaction._parse_string", (KR, 0), "method not found")
+        return
+    params = [a.arg for a in ps.args.args]
+    stores = [(f.line, simp(f.value)) for f in Flow(ps, KR, resolver=helpers, func_resolver=funcs).facts if f.kind == "attrstore" and f.target == "rate_string" and f.value is not None]
+    if len(params) != 2 or not stores:
+        ctx.unrec("R8", "_parse_string:rate_string is the rate field", (KR, ps.lineno), "cannot see where _parse_string(self, line) stores rate_string")
+        return
+    src = ("param", params[1])
+    for line, v in stores:
+        reps = []
+        while v[0] == "meth" and v[2] == "replace" and len(v[3]) == 2 and not v[4] and all(a[0] == "const" for a in v[3]):
+            reps.append((v[3][0][1], v[3][1][1]))
+            v = v[1]
+        field = v[1] if v[0] in ("elem", "item", "sub") else None
+        whole = None
+        if field is not None and field[0] == "meth" and field[2] == "split" and not field[4]:
+            whole = _text_from(field[1], src)
+        direct = _text_from(v, src)
+        key = "_parse_string:rate_string is the rate field"
+        if direct[0] == "rewritten" or (whole and whole[0] == "rewritten"):
+            op = (direct[1] if direct[0] == "rewritten" else whole[1])[0]
+            ctx.bad("R8", f"{key}:{show(op)[:40]}", (KR, line), f"the line is put through {show(op)[:90]} before its rate field is stored: the translator does not see the file's expression",
+                    expected="rate_string = <rate field of line.split(',')>.replace('dexp', 'exp')", found=show(op)[:160])
+        elif whole is None or whole[0] != "same":
+            ctx.unrec("R8", key, (KR, line), f"cannot see that rate_string is a field of the comma-split line: {show(v)[:100]}")
+        elif sorted(reps) != [("dexp", "exp")] and reps:
+            extra = [r for r in reps if r != ("dexp", "exp")]
+            ctx.bad("R8", f"{key}:replace{extra[0]}", (KR, line), f"the rate field is rewritten by .replace{extra[0]} before it is stored: not one of the reviewed rewritings (dexp -> exp)",
+                    expected="only .replace('dexp', 'exp')", found=str(reps))
+        else:
+            ctx.ok("R8", key, (KR, line), "rate_string is the rate field of the line as read (dexp spelt exp)")
+
+
 def _r6(ctx, pkg, ci):
     """The grammars are written for Lark's default Earley parser with its dynamic lexer: terminals overlap on purpose (NUMBER is a
     SIGNED number, WORD/NUMBER/UNDER chain into names) and only Earley lets the grammar decide where a token ends.  R1's rule-graph
@@ -289,6 +416,24 @@ def _r1(ctx, gr):
                   f"`power: {' '.join(n for n, _ in exp)}` with `{left[0]}` deriving `power` without parentheses: a**b**c also parses as (a**b)**c, and the translator "
                   "emits pow(pow(a, b), c) -- Fortran's ** is right-associative",
                   expected="power: base POW (power | atom) with base excluding power", found=f"{left[0]} =>* {sorted(lc)}")
+        # a sign-prefixed alternative as the BASE of **: `-x**2` then (also) parses with the sign inside the base, pow(-x, 2), where
+        # Fortran evaluates -(x**2).  Decided on the rule graph: from the left operand through unit productions to an expansion of
+        # two or more symbols that starts with a terminal matching a bare "-" / "+"
+        import re as _re
+
+        def is_sign(term_name):
+            t = terms.get(term_name)
+            try:
+                rx = t.pattern.to_regexp()
+                return bool(_re.fullmatch(rx, "-") or _re.fullmatch(rx, "+"))
+            except Exception:
+                return False
+        prefixed = sorted((r, " ".join(n for n, _ in e)) for r in lc for e in rules.get(r, []) if len(e) >= 2 and e[0][1] and is_sign(e[0][0]))
+        ctx.check(not prefixed, "R1", "fgrammar:sign-prefixed base of POW", (CF, 0),
+                  "no alternative that starts with a sign can be the base of ** (a sign in front of x**y applies to the power)" if not prefixed else
+                  f"the base of ** (`{left[0]}`) derives `{prefixed[0][0]}: {prefixed[0][1]}`, an operand that starts with a sign: `-x**2` is accepted and translated to pow(-x, 2) "
+                  "while Fortran evaluates -(x**2) -- the sign is lost for even exponents, NaN for fractional ones",
+                  expected="a unary sign rule ABOVE power (sign applied to the whole x**y)", found=f"{left[0]} =>* {prefixed[0][0]}: {prefixed[0][1]}" if prefixed else None)
         # signed numbers as operands
         signed = [n for n, t in terms.items() if n == "NUMBER" and "SIGNED_NUMBER" in text]
         reach = set()
@@ -304,10 +449,62 @@ def _r1(ctx, gr):
                   expected="unsigned number terminal plus a unary-minus rule above power", found="%import common.SIGNED_NUMBER -> NUMBER; scientific: NUMBER ..; atom: scientific | power ..")
 
 
+_MODULE = {}          # "mod": the ast of converter.py (set by check): where callback factories and translation tables may live
+
+
+def _from_factory(call):
+    """`name = make(" ", prefix="x")` with the module-level `def make(sep, prefix=""): def cb(self, children): return <expr>; return cb`
+    (or `return lambda self, children: <expr>`): the callback `cb` with the factory's parameters replaced by the (literal) arguments
+    of this call -- a closure over constants is the function written out."""
+    import copy
+    mod = _MODULE.get("mod")
+    if mod is None or not (isinstance(call, ast.Call) and isinstance(call.func, ast.Name)) or any(isinstance(a, ast.Starred) for a in call.args) or any(k.arg is None for k in call.keywords):
+        return None
+    fds = [st for st in mod.body if isinstance(st, ast.FunctionDef) and st.name == call.func.id]
+    if len(fds) != 1 or fds[0].decorator_list or fds[0].args.vararg or fds[0].args.kwarg or fds[0].args.posonlyargs:
+        return None
+    fd = fds[0]
+    body = [st for st in fd.body if not (isinstance(st, ast.Expr) and isinstance(st.value, ast.Constant))]
+    if len(body) == 2 and isinstance(body[0], ast.FunctionDef) and isinstance(body[1], ast.Return) and isinstance(body[1].value, ast.Name) and body[1].value.id == body[0].name \
+            and not body[0].decorator_list:
+        inner = body[0]
+    elif len(body) == 1 and isinstance(body[0], ast.Return) and isinstance(body[0].value, ast.Lambda):
+        inner = body[0].value
+    else:
+        return None
+    names = [a.arg for a in fd.args.args] + [a.arg for a in fd.args.kwonlyargs]
+    bound = dict(zip([a.arg for a in fd.args.args], call.args))
+    if len(call.args) > len(fd.args.args):
+        return None
+    for k in call.keywords:
+        if k.arg not in names or k.arg in bound:
+            return None
+        bound[k.arg] = k.value
+    pos = fd.args.args
+    for a, d in list(zip(pos[len(pos) - len(fd.args.defaults):], fd.args.defaults)) + [(a, d) for a, d in zip(fd.args.kwonlyargs, fd.args.kw_defaults) if d is not None]:
+        bound.setdefault(a.arg, d)
+    if set(bound) != set(names) or not all(isinstance(v, ast.Constant) for v in bound.values()):
+        return None
+    own = {a.arg for a in inner.args.args}
+    if any(isinstance(n, ast.Name) and isinstance(n.ctx, (ast.Store, ast.Del)) and n.id in bound for n in ast.walk(inner)) \
+            or any(isinstance(n, (ast.Nonlocal, ast.Global)) for n in ast.walk(inner)):
+        return None
+
+    class Sub(ast.NodeTransformer):
+        def visit_Name(self, n):
+            if isinstance(n.ctx, ast.Load) and n.id in bound and n.id not in own:
+                return ast.copy_location(copy.deepcopy(bound[n.id]), n)
+            return n
+    new = Sub().visit(copy.deepcopy(inner))
+    if isinstance(new, ast.FunctionDef):
+        new.name = call.func.id
+    return ast.fix_missing_locations(ast.copy_location(new, call))
+
+
 def _callbacks(cls_node):
     """name -> callback; a `def f(self, x): return <expr>` is presented as the lambda it is equivalent to.  Every target of a
     chained assignment (`a = b = f`) is bound; a name bound to another function of the same class body (`atom = _concat`) is that
-    function."""
+    function; a name bound to the result of a module-level callback factory called with literals is the callback it returns."""
     out = {}
 
     def present(s):
@@ -320,6 +517,9 @@ def _callbacks(cls_node):
             val = s.value
             if isinstance(val, ast.Name) and val.id in out:
                 val = out[val.id]
+            made = _from_factory(val) if isinstance(val, ast.Call) else None
+            if made is not None:
+                val = present(made) if isinstance(made, ast.FunctionDef) else made
             for t in s.targets:
                 if isinstance(t, ast.Name):
                     out[t.id] = val
@@ -336,19 +536,27 @@ def _class_consts(ci, order):
     from ..ratemodel import _ev_literal
     SELF = ("param", "self")
     out = {}
-    for c in reversed(order):
-        for st in ci.nested[c].body:
+    mod = _MODULE.get("mod")
+    rebound = set()
+    if mod is not None:
+        stores = [n.id for n in ast.walk(mod) if isinstance(n, ast.Name) and isinstance(n.ctx, (ast.Store, ast.Del))]
+        rebound = {x for x in stores if stores.count(x) > 1}
+    for scope, c in ([("module", None)] if mod is not None else []) + [("class", c) for c in reversed(order)]:
+        for st in (mod.body if scope == "module" else ci.nested[c].body):
             if not (isinstance(st, ast.Assign) and all(isinstance(t, ast.Name) for t in st.targets)):
+                continue
+            if scope == "module" and any(t.id in rebound for t in st.targets):
                 continue
             v = st.value
             pure = all(isinstance(n, (ast.Constant, ast.Tuple, ast.List, ast.Dict, ast.Load, ast.Call, ast.Attribute, ast.Name)) for n in ast.walk(v)) \
                 and all(ast.unparse(n.func) == "str.maketrans" and not n.keywords for n in ast.walk(v) if isinstance(n, ast.Call)) \
                 and all(n.id == "str" for n in ast.walk(v) if isinstance(n, ast.Name))
             for t in st.targets:
+                key = ("global", t.id) if scope == "module" else ("attr", SELF, t.id)        # (a module-level table is read by its bare name)
                 if pure:
-                    out[("attr", SELF, t.id)] = simp(_ev_literal(v))
+                    out[key] = simp(_ev_literal(v))
                 else:
-                    out.pop(("attr", SELF, t.id), None)
+                    out.pop(key, None)
     return out
 
 
